@@ -163,6 +163,20 @@ let do_bw line =
     (split_on ',' script);
   "BW ran=[" ^ String.concat "," (List.rev_map (fun x -> string_of_int (int_of_nat x)) !ran) ^ "] joined"
 
+(* ------------------------------------------------------------------ RC *)
+(* Concurrency monitor, not a replay of the Coq model: the clock is frozen far before
+   the deadline and exactly one signal is sent per round while the waiter is
+   committed to its wait, so by the verdict rule (C19_timeout_verdict: TIMEDOUT only
+   when not READY at the locked test with now >= deadline; the waiter that released
+   the mutex is already queued -- the atomic release-and-wait step is C05's theorem)
+   every round returns ABT_SUCCESS.  The expected line is that constant. *)
+let do_rc line =
+  match words line with
+  | _ :: rounds :: _ ->
+    let n = int_of_string rounds in
+    Printf.sprintf "RC rounds=%d ok=%d lost=0 other=0" n n
+  | _ -> failwith "bad RC line"
+
 let () =
   let ic = if Array.length Sys.argv > 1 then open_in Sys.argv.(1) else stdin in
   List.iter (fun line ->
@@ -171,5 +185,6 @@ let () =
         print_endline (if String.length line >= 2 && String.sub line 0 2 = "WL" then do_wl line
                        else if String.sub line 0 2 = "PW" then do_pw line
                        else if String.sub line 0 2 = "BW" then do_bw line
+                       else if String.sub line 0 2 = "RC" then do_rc line
                        else failwith ("bad line: " ^ line)))
     (read_lines ic)
